@@ -46,6 +46,12 @@ structure Snap where
   delete : DeleteOpt
   deriving Repr, DecidableEq
 
+/-- a snapshot whose civil fields are read off its `Zoned` (instant + fixed offset), as `forget.rs` does -/
+def Snap.ofInstant (t off : Int) (id : String) (tree : Nat) (tags : List String) (del : DeleteOpt) : Snap :=
+  let c := Civil.ofInstant t off
+  { time := t, off := off, year := c.year, month := c.month, doy := c.doy, hour := c.hour, minute := c.minute,
+    isoYear := c.isoYear, isoWeek := c.isoWeek, id := id, tags := tags, tree := tree, delete := del }
+
 /-! ### period predicates -/
 def alwaysFalse (_ _ : Snap) : Bool := false
 def equalYear (a b : Snap) : Bool := a.year == b.year
